@@ -1107,6 +1107,58 @@ func propC14(r *Run) {
 			h.alts = cands[1:]
 			hists = append(hists, h)
 		}
+		// SPLIT: one multi-valued positional / option value with a blank (or a comma) inside against
+		// the two values it falls into: ["a b"] and ["a", "b"] — a key that joins the list with a
+		// separator confuses them (seeded change W13-2: `strings.Join(*selectors, " ")` in the payload
+		// of gts select)
+		for i, p := range cmd.pos {
+			if p.kind != "extra" {
+				continue
+			}
+			var cands []cliHist
+			for k := 0; k < nCand; k++ {
+				b2 := bases[k].clone()
+				a := p.vals[r.rng.intn(len(p.vals))]
+				b := pickOther(r.rng, p.vals, a)
+				if b < a { // some commands sort the list first: the joined text of the pair is then "lo hi"
+					a, b = b, a
+				}
+				for _, sep := range []string{" ", ","} {
+					one := b2.clone()
+					one.pos[i] = []string{a + sep + b}
+					two := b2.clone()
+					two.pos[i] = []string{a, b}
+					cands = append(cands, histOf("sweep/split", one.run(), two.run(), one.run()))
+				}
+			}
+			h := cands[0]
+			h.alts = cands[1:]
+			hists = append(hists, h)
+		}
+		for _, o := range cmd.opts {
+			if o.kind != "multi" {
+				continue
+			}
+			var cands []cliHist
+			for k := 0; k < nCand; k++ {
+				b2 := bases[k].clone()
+				a := o.vals[r.rng.intn(len(o.vals))]
+				b := pickOther(r.rng, o.vals, a)
+				if b < a {
+					a, b = b, a
+				}
+				for _, sep := range []string{" ", ","} {
+					one := b2.clone()
+					one.vals[o.long] = []string{a + sep + b}
+					two := b2.clone()
+					two.vals[o.long] = []string{a, b}
+					cands = append(cands, histOf("sweep/split", one.run(), two.run(), one.run()))
+				}
+			}
+			h := cands[0]
+			h.alts = cands[1:]
+			hists = append(hists, h)
+		}
 		// argument texts that differ only in bytes that are not valid UTF-8 (a JSON encoding of the
 		// key writes both as U+FFFD: repaired defect F32)
 		for _, o := range cmd.opts {
